@@ -268,4 +268,16 @@ def staticInner (siblings : List Coding) (ae : Bytes) (content : Bytes) (plen : 
     { hdr := { ce := [], cl := some content.length, varyAE := false, etag := .strong },
       body := .raw content, plen := content.length, ops := [.hdr 200, .write], ret := 200 }
 
+/-- the file server's answer to a satisfiable single-range request: 206 with `sendSize` bytes of
+the representation it picked; http.ServeContent (Go 1.23) overwrites Content-Length with the
+length of the part, also for a sibling. -/
+def rangeInner (siblings : List Coding) (ae : Bytes) (sendSize : Nat) : Inner :=
+  match pickSibling siblings ae with
+  | some c =>
+    { hdr := { ce := c.name, cl := some sendSize, varyAE := true, etag := .strong },
+      body := .layer c (.raw []), plen := sendSize, ops := [.hdr 206, .write], ret := 200 }
+  | none =>
+    { hdr := { ce := [], cl := some sendSize, varyAE := false, etag := .strong },
+      body := .raw [], plen := sendSize, ops := [.hdr 206, .write], ret := 200 }
+
 end Casket.Gzip
